@@ -70,8 +70,9 @@ struct NodeWorld : World {
             if (u < (undo_heavy ? 0.5 : 0.65)) {
                 o.kind = OP_SET; o.a[0] = leaf; if (prop != "C15" && pr.chance(0.06)) o.a[3] = 1 + (int64_t)pr.below(3);   // a[3]: 1 one leading zero, 2 two leading zeros, 3 index one past the end (with a leading zero half of the time)
                 switch (l.kind) {
-                case app::K_PARAM_C: case app::K_ARR_I: { o.a[2] = l.kind == app::K_PARAM_C ? 'c' : 'i'; int lo = atoi(l.mn), hi = atoi(l.mx); double s = pr.unit();
-                    o.a[1] = s < 0.5 ? pr.range(lo, hi) : s < 0.8 ? pr.pick(std::vector<int64_t>{lo - 1, lo, lo + 1, hi - 1, hi, hi + 1}) : pr.pick(std::vector<int64_t>{-128, 127, 0, -1}); if (o.a[1] < -128) o.a[1] = -128; if (o.a[1] > 127) o.a[1] = 127; break; }
+                case app::K_PARAM_C: case app::K_ARR_I: { bool isc = l.kind == app::K_PARAM_C; o.a[2] = isc ? 'c' : 'i'; int lo = atoi(l.mn), hi = atoi(l.mx); double s = pr.unit();
+                    o.a[1] = s < 0.5 ? pr.range(lo, hi) : s < 0.8 ? pr.pick(std::vector<int64_t>{lo - 1, lo, lo + 1, hi - 1, hi, hi + 1}) : isc ? pr.pick(std::vector<int64_t>{-128, 127, 0, -1}) : pr.pick(std::vector<int64_t>{-128, 127, 0, -1, 128, 255, 256, 300, -129, -300, 65536 + 5, INT_MAX, INT_MIN});
+                    if (isc) { if (o.a[1] < -128) o.a[1] = -128; if (o.a[1] > 127) o.a[1] = 127; } break; }
                 case app::K_PARAM_I: { o.a[2] = 'i'; double s = pr.unit(); int lo = l.has_min ? atoi(l.mn) : -1000, hi = l.has_max ? atoi(l.mx) : 1000;
                     o.a[1] = s < 0.45 ? pr.range(lo, hi) : s < 0.8 ? pr.pick(std::vector<int64_t>{lo - 1, lo, lo + 1, hi - 1, hi, hi + 1, 0}) : pr.pick(std::vector<int64_t>{INT_MIN, INT_MAX, INT_MIN + 1, -1000000, 1000000}); break; }
                 case app::K_PARAM_F: { o.a[2] = 'f'; double s = pr.unit(); float lo = l.has_min ? (float)atof(l.mn) : -100.f, hi = l.has_max ? (float)atof(l.mx) : 100.f; float f;
@@ -165,7 +166,7 @@ struct NodeWorld : World {
                     else if (in.tag == 'T' || in.tag == 'F') in.v = app::vb(in.tag == 'T');
                     else if (in.tag == 's') in.v = app::vs(op.s.c_str());
                     else if (in.tag == 'S') { bool known = false; for (auto &o : l.opts) if (o == op.s) known = true; in.v = app::vs(known ? op.s.c_str() : l.opts[0].c_str()); stat_add(P_OPTION_SYMBOL); }
-                    else { int64_t x = op.a[1]; if (l.kind == app::K_PARAM_C || l.kind == app::K_ARR_I || in.tag == 'c') x = std::max<int64_t>(-128, std::min<int64_t>(x, 127)); x = std::max<int64_t>(INT_MIN, std::min<int64_t>(x, INT_MAX)); in.v = app::vi((int)x); }
+                    else { int64_t x = op.a[1]; if (l.kind == app::K_PARAM_C || in.tag == 'c') x = std::max<int64_t>(-128, std::min<int64_t>(x, 127)); x = std::max<int64_t>(INT_MIN, std::min<int64_t>(x, INT_MAX)); in.v = app::vi((int)x); }
                     if (l.addr.find('/', 1) != std::string::npos) stat_add(P_SUBTREE_SET); else if (isdigit(l.addr.back())) stat_add(P_ARRAY_SET);
                 } else stat_add(P_QUERY);
                 if (op.kind == OP_SET && op.a[3] > 0) {   // respell the enumeration index of the address (first component that ends in digits and belongs to a '#N' port)
